@@ -342,7 +342,7 @@ func (P *Program) runGoTests(files map[string]string, dir string) (map[string]bo
 	if n == 0 {
 		return res, ""
 	}
-	src := "package yqlib\n\nimport (\n\t\"testing\"\n\t\"fmt\"\n\t\"math/big\"\n\t\"strings\"\n\t\"os\"\n\t\"bytes\"\n\t\"container/list\"\n\t\"encoding/csv\"\n\t\"errors\"\n\tyaml \"gopkg.in/yaml.v3\"\n)\n\ntype verifFailingWriter struct{}\n\nfunc (verifFailingWriter) Write(p []byte) (int, error) { return 0, errors.New(\"disk full\") }\n\n// fails on the n-th write that consists of a single newline, accepts everything else\ntype verifNewlineFailingWriter struct {\n\tbuf bytes.Buffer\n\tseen, failOn int\n\tfailed bool\n}\n\nfunc (w *verifNewlineFailingWriter) Write(p []byte) (int, error) {\n\tif string(p) == \"\\n\" {\n\t\tw.seen++\n\t\tif w.seen == w.failOn {\n\t\t\tw.failed = true\n\t\t\treturn 0, errors.New(\"disk full\")\n\t\t}\n\t}\n\treturn w.buf.Write(p)\n}\n\nvar _ = csv.NewWriter\nvar _ = fmt.Sprint\nvar _ = big.NewInt\nvar _ = strings.Contains\nvar _ = os.Getenv\nvar _ = bytes.NewBuffer\nvar _ = list.New\nvar _ = yaml.Marshal\n\n" + body.String()
+	src := "package yqlib\n\nimport (\n\t\"testing\"\n\t\"fmt\"\n\t\"math/big\"\n\t\"strings\"\n\t\"os\"\n\t\"bytes\"\n\t\"container/list\"\n\t\"encoding/csv\"\n\t\"errors\"\n\t\"runtime/debug\"\n\tyaml \"gopkg.in/yaml.v3\"\n)\n\ntype verifFailingWriter struct{}\n\nfunc (verifFailingWriter) Write(p []byte) (int, error) { return 0, errors.New(\"disk full\") }\n\n// fails on the n-th write that consists of a single newline, accepts everything else\ntype verifNewlineFailingWriter struct {\n\tbuf bytes.Buffer\n\tseen, failOn int\n\tfailed bool\n}\n\nfunc (w *verifNewlineFailingWriter) Write(p []byte) (int, error) {\n\tif string(p) == \"\\n\" {\n\t\tw.seen++\n\t\tif w.seen == w.failOn {\n\t\t\tw.failed = true\n\t\t\treturn 0, errors.New(\"disk full\")\n\t\t}\n\t}\n\treturn w.buf.Write(p)\n}\n\nvar _ = csv.NewWriter\nvar _ = fmt.Sprint\nvar _ = big.NewInt\nvar _ = strings.Contains\nvar _ = os.Getenv\nvar _ = bytes.NewBuffer\nvar _ = list.New\nvar _ = yaml.Marshal\nvar _ = debug.SetMaxStack\n\n" + body.String()
 	testFile := filepath.Join(dir, "zz_verif_witness_test.go")
 	os.WriteFile(testFile, []byte(src), 0o644)
 	target := filepath.Join(P.repo, "pkg/yqlib", "zz_verif_witness_test.go")
